@@ -51,7 +51,7 @@ fn observed(recs: &[Rec]) -> [Vec<i128>; 4] {
 impl Prop for C14 {
     type Case = SimCase;
     const ID: &'static str = "C14";
-    const RULE: &'static str = "case = non-empty trace of 1..=120 lines (gaps from {0 (bursts, equal stamps in both directions), 1 ns, us, ms, the 100 ms window edges, seconds}; any direction mix incl. all-sent / all-received) x network delay from {0, 1 ns, us, ms, 100 ms, 1 s} x queue built by parse_trace or by hand; each case is simulated through sim() (2 filter settings) and sim_advanced() (4 filter settings) with max_trace_length 0 or sufficient. Non-trivial: >=2 packets in both directions and (a burst of equal timestamps, or delay 0, or >=11 packets inside 100 ms). Distinct = hash of the case.";
+    const RULE: &'static str = "case = non-empty trace of 1..=120 lines (gaps from {0 (bursts, equal stamps in both directions), 1 ns, us, ms, the 100 ms window edges, seconds}; any direction mix incl. all-sent / all-received; one case in seven is jitter-free pacing of 1-4 equal-stamp packets at a step on or 1 ns beside the 100 ms / 1 s window edges for 12-30 steps) x network delay from {0, 1 ns, us, ms, 100 ms, 1 s} x queue built by parse_trace or by hand; each case is simulated through sim() (2 filter settings) and sim_advanced() (4 filter settings) with max_trace_length 0 or sufficient. Non-trivial: >=2 packets in both directions and (a burst of equal timestamps, or delay 0, or >=11 packets inside 100 ms). Distinct = hash of the case.";
 
     fn profiles(tier: Tier) -> Vec<Profile> {
         match tier {
@@ -96,7 +96,7 @@ impl Prop for C14 {
             8 => Just(0u64),
             1 => proptest::sample::select(vec![(1u64 << 53) + 1, 1_700_000_000_123_456_789u64, (1u64 << 60) + 77, (1u64 << 53) - 3]),
         ];
-        (trace(120), delay(), any::<bool>(), any::<bool>(), seed(), text_extras(), base)
+        (prop_oneof![6 => trace(120), 1 => edge_trace(120)], delay(), any::<bool>(), any::<bool>(), seed(), text_extras(), base)
             .prop_map(|(trace, delay_ns, hand_queue, long, seed, (pad_lines, line_style), base_ns)| {
                 let n = trace.len();
                 SimCase {
@@ -156,6 +156,20 @@ impl Prop for C14 {
         }
         if !c.hand_queue && c.line_style / 3 != 0 && c.repeat <= 1 && c.trace.len() >= 2 {
             obs.hit("input_lines_in_scrambled_order");
+        }
+        // one direction repeating at exactly 100 ms (an edge of the rate window) for more than a second
+        for dir in [true, false] {
+            let ts: Vec<u64> = c.trace.iter().filter(|x| x.1 == dir).map(|x| x.0).collect();
+            let mut uniq = ts.clone();
+            uniq.dedup();
+            let mut run = 1;
+            for w in uniq.windows(2) {
+                run = if w[1] - w[0] == 100_000_000 { run + 1 } else { 1 };
+                if run >= 12 {
+                    obs.hit("steps_of_exactly_100ms_in_one_direction_for_over_a_second");
+                    break;
+                }
+            }
         }
         // both directions busy for more than a second
         let span = c.trace.last().map(|x| x.0).unwrap_or(0);
@@ -247,7 +261,7 @@ impl Prop for C14 {
     }
 
     fn required_classes() -> Vec<&'static str> {
-        vec!["burst_of_equal_timestamps", "eleven_packets_within_100ms", "zero_delay", "hand_built_queue", "sustained_two_way_traffic_over_a_second", "input_with_ignored_padding_lines", "more_than_250000_packets", "max_trace_length_usize_max", "input_lines_in_scrambled_order", "timestamps_above_2_pow_53_ns"]
+        vec!["burst_of_equal_timestamps", "eleven_packets_within_100ms", "zero_delay", "hand_built_queue", "sustained_two_way_traffic_over_a_second", "input_with_ignored_padding_lines", "more_than_250000_packets", "max_trace_length_usize_max", "input_lines_in_scrambled_order", "timestamps_above_2_pow_53_ns", "steps_of_exactly_100ms_in_one_direction_for_over_a_second"]
     }
 
     fn assumptions() -> Vec<&'static str> {
